@@ -175,13 +175,47 @@ PROPS["C17"] = {
     "claim": "every recorded span slices the source to the spelling of its item, for symbolic contents and shifted offsets; "
              "every ParseError span lies inside the source on char boundaries",
     "harnesses": [
-        H("h_c17_spans", shards={"quick": shard_product(("group", 3), ("pad", 3), ("fragment", 2)), "thorough": shard_product(("group", 3), ("pad", 3), ("fragment", 2))}),
+        H("h_c17_spans", shards={"quick": shard_product(("group", 3), ("pad", 3), ("fragment", 2), ("lead", 2)), "thorough": shard_product(("group", 3), ("pad", 3), ("fragment", 2), ("lead", 2))}),
         H("h_c17_error_spans", shards={"quick": shard_choose("k", 9), "thorough": shard_choose("k", 9)}),
     ],
     "bounds": {"quick": "one document template containing every span kind (prefixed element, 2 attributes, text, comment, PI, "
                         "text+CDATA+text run, empty element), contents symbolic two at a time (1 char each), 3 offset shifts, parse and "
                         "parse_fragment; 9 error templates x 3 shifts", "thorough": "same"},
     "outside": "documents other than the templates",
+    "assumptions": [],
+}
+
+PROPS["C18"] = {
+    "claim": "remove_insignificant_whitespace removes exactly the text nodes the definition names, for all text contents "
+             "(the solver picks the characters) and xml:space layouts, and is idempotent",
+    "harnesses": [H("h_c18_strip", {"PICKS": 2, "TARGETS": 1}, {"PICKS": 3, "TARGETS": 2}, shards={"quick": shard_product(("xs0", 4), ("xs1", 4)), "thorough": shard_product(("xs0", 4), ("xs1", 4))})],
+    "bounds": {"quick": "<a>t0<p>t1<b/>t2<!--c-->t3</p>t4</a>: t1,t2 symbolic (1 char, any XML Char), t0,t3,t4 each one of space / letter (thorough: also U+00A0), "
+                        "xml:space none/preserve/default/other on both elements, called on the document and on the element",
+               "thorough": "same"},
+    "outside": "text longer than one character; deeper nesting of xml:space",
+    "assumptions": [],
+}
+
+PROPS["C12"] = {
+    "claim": "clone_node gives an unattached copy made of new nodes, equal to the source incl. declarations and attribute "
+             "order, leaves the source unchanged, and the two sides are independent under later mutation; clone_with_prefixes "
+             "adds only in-scope bindings and the clone serialises whenever the source did",
+    "harnesses": [H("h_c12_clone", shards={"quick": shard_product(("shape", 9), ("consolidate", 2)), "thorough": shard_product(("shape", 9), ("consolidate", 2))}),
+                  H("h_c12_clone_with_prefixes", shards={"quick": shard_choose("c0", 8), "thorough": shard_choose("c0", 8)})],
+    "bounds": {"quick": "9 kinds of source node in an 11-node document (symbolic contents, adjacent text when consolidation was off), "
+                        "consolidation on/off at clone time, one later mutation (3 kinds) of any node of either side; 8x8 declaration "
+                        "layouts x 3x3 element namespaces x 2 attribute namespaces for clone_with_prefixes", "thorough": "same"},
+    "outside": "Xot::clone (derive-generated Clone of Vec/HashMap: std code, summarised containers); longer mutation histories",
+    "assumptions": [],
+}
+
+PROPS["C20"] = {
+    "claim": "fixed::Document::xotify, three stepwise construction orders and parsing the serialisation give the same tree "
+             "(incl. declarations, attribute order, leading/trailing comments and PIs)",
+    "harnesses": [H("h_c20_three_ways", shards={"quick": shard_product(("group", 3), ("before", 3), ("after", 3)), "thorough": shard_product(("group", 3), ("before", 3), ("after", 3))})],
+    "bounds": {"quick": "one abstract document with text / attribute / comment content symbolic one at a time, 0-2 leading and 0-2 trailing "
+                        "comments/PIs, 4 construction orders", "thorough": "same"},
+    "outside": "abstract documents other than the template shape",
     "assumptions": [],
 }
 
